@@ -472,6 +472,13 @@ def bad_encodings(rng):
     out.append(b"\x04" + ec.b32(no_sqrt_x(rng)) + yb)
     out.append(b"\x04" + ec.b32(P + 1) + yb)
     out.append(b"\x04" + xb + ec.b32(P + rng.randrange(2**256 - P)))  # y >= p
+    # coordinates congruent to a real point but >= p (only points with x < 2^256 - p exist for this): x + p
+    small = [x for x in range(1, 40) if ec.lift_x(x) is not None][:4]
+    for x in small:
+        pt = ec.lift_x(x, odd=bool(rng.getrandbits(1)))
+        out.append(b"\x04" + ec.b32(x + P) + ec.b32(pt[1]))
+        out.append(bytes([2 + (pt[1] & 1)]) + ec.b32(x + P))
+        out.append(ec.b32(x + P))  # x-only
     for pre in (0, 1, 5, 6, 7, 0x82, 0xFF, 4):
         out.append(bytes([pre]) + xb)  # bad prefix, 33 bytes (4 + 32 bytes is also invalid)
     for pre in (0, 2, 3, 5, 6, 7):
